@@ -17,6 +17,8 @@ QUICK = [
     ("gen-glob", {"nfiles": 12, "ndirs": 2, "bs": 4096, "hostile": True, "nohl": True}, 6),
     ("gen-glob", {"nfiles": 8, "ndirs": 3, "bs": 4096, "hardlinks": True, "nohl": True}, 10),
     ("gen-glob", {"nfiles": 8, "ndirs": 3, "bs": 4096}, 10),
+    ("gen-glob-partial", {"nfiles": 10, "ndirs": 6, "bs": 4096, "nohl": True}, 24),
+    ("gen-glob-partial", {"nfiles": 14, "ndirs": 9, "bs": 4096, "specials": True, "nohl": True}, 12),
 ]
 NPERM = 8
 
@@ -30,6 +32,34 @@ def build(bdir, seed, kind, prof, cd):
     # glob lines of a pack file over a real directory
     case = pipelines.build_case(bdir, seed, "gen-packdir", prof, cd)
     r = rng(seed, "glob")
+    if kind == "gen-glob-partial":
+        # only SOME directories are declared, globs filter by type / name: entries whose parent is not in the tree are dropped
+        # (documented) - whether they are dropped must not depend on the order in which the scan meets them
+        dirs = sorted((e.path for e in case.ents if e.type == treegen.DIR), key=lambda p: (p.count(b"/"), p))
+        declared = set()
+        lines = []
+        for d in dirs:
+            parent = d.rsplit(b"/", 1)[0] if b"/" in d else None
+            if (parent is None or parent in declared) and r.random() < 0.6:
+                declared.add(d)
+                lines.append(b"dir %s 0755 0 0" % treegen.quote(b"/" + d))
+        style = r.randrange(4)
+        if style == 0:
+            lines.append(b"glob / 0644 0 0 -type f -- ./tree")
+        elif style == 1:
+            lines.append(b"glob / * * * -type d -name \"*%s*\" -- ./tree" % bytes([r.choice(b"abcdefghijklmnopqrstuvwxyz0123456789")]))
+            lines.append(b"glob / * * * -type f -- ./tree")
+        elif style == 2:
+            lines.append(b"glob / * * * -type f -name \"*%s*\" -- ./tree" % bytes([r.choice(b"abcdefghijklmnopqrstuvwxyz0123456789")]))
+            lines.append(b"glob / 0777 0 0 -type l -- ./tree")
+        else:
+            lines.append(b"glob / * * * -not -type d -- ./tree" if False else b"glob / * * * -type f -- ./tree")
+            lines.append(b"glob / * * * -type p -- ./tree")
+        with open(os.path.join(cd, "pack.txt"), "wb") as f:
+            f.write(b"\n".join(lines) + b"\n")
+        opts = [a for a in case.argv[:-1] if a not in ("-D", "tree", "-k", "-x")]
+        case.argv = opts + ["-F", "pack.txt", "-D", ".", case.argv[-1]]
+        return case
     hl = b" -nohardlinks" if prof.get("nohl") else b""
     lines = [b"dir /x 0755 0 0", b"glob /x * * * -type d" + hl + b" ./tree", b"glob /x * * * -type f" + hl + b" ./tree",
              b"glob /x 0777 0 0 -type l" + hl + b" ./tree"]
